@@ -75,6 +75,66 @@ def run(p):
         Globals.dict.update(saved)
 
 
+def run_globals(p):
+    """globals whose values are patterns: program = {"kind": "globals", "tpb", "ticks", "default", "objs": [{"vals": [...]}] (cyclic
+    PSequence objects, built once), "tracks": [{"role": "setter", "period", "offset", "groups": [[[name, ["s", v] | ["p", obj], form], ...], ...]}
+    | {"role": "reader", "period", "offset", "name", "direct": bool, "count": n|null}]}; names are indices ("g0", "g1", ...);
+    log: ["get", tick, track, name, value] (PGlobals as an event argument), ["direct", tick, track, name, value | "keyerror"]
+    (Globals.get inside the callback), ["set", tick, track, name, spec]"""
+    saved = dict(Globals.dict)
+    Globals.dict.clear()
+    try:
+        tpb = p["tpb"]
+        tl = iso.Timeline(120, output_device=Dev(), clock_source=iso.DummyClock(ticks_per_beat=tpb))
+        objs = [iso.PSequence(list(o["vals"])) for o in p["objs"]]
+        log = []
+        state = {"tick": 0}
+        counters = [0] * len(p["tracks"])
+
+        def value_of(spec):
+            return spec[1] if spec[0] == "s" else objs[spec[1]]
+
+        def make_setter(j, t):
+            def cb():
+                group = t["groups"][counters[j] % len(t["groups"])]
+                counters[j] += 1
+                for name, spec, form in group:
+                    key = "g%d" % name
+                    if form == "kv":
+                        Globals.set(key, value_of(spec))
+                    elif form == "dict":
+                        Globals.set({key: value_of(spec)})
+                    else:
+                        Globals.set({"unrelated-%d" % j: counters[j], key: value_of(spec)})
+                    log.append(["set", state["tick"], j, name, spec])
+            return cb
+
+        def make_reader(j, t):
+            def cb(v):
+                log.append(["get", state["tick"], j, t["name"], v])
+                if t.get("direct"):
+                    try:
+                        log.append(["direct", state["tick"], j, t["name"], Globals.get("g%d" % t["name"])])
+                    except KeyError:
+                        log.append(["direct", state["tick"], j, t["name"], "keyerror"])
+            return cb
+        for j, t in enumerate(p["tracks"]):
+            ev = {"duration": float(Fraction(t["period"], tpb))}
+            if t["role"] == "setter":
+                ev["action"] = make_setter(j, t)
+            else:
+                ev["action"] = make_reader(j, t)
+                ev["args"] = {"v": iso.PGlobals("g%d" % t["name"], p["default"])}
+            tl.schedule(ev, delay=float(Fraction(t["offset"], tpb)), count=t.get("count"))
+        for i in range(p["ticks"]):
+            state["tick"] = i
+            tl.tick()
+        return {"log": log}
+    finally:
+        Globals.dict.clear()
+        Globals.dict.update(saved)
+
+
 def main():
     req = json.load(sys.stdin)
     out = []
@@ -83,7 +143,7 @@ def main():
         try:
             buf = io.StringIO()
             with contextlib.redirect_stdout(buf), contextlib.redirect_stderr(buf):
-                out.append(run(p))
+                out.append(run_globals(p) if p.get("kind") == "globals" else run(p))
         except Exception as e:
             import traceback
             out.append({"driver_error": "%s: %s" % (type(e).__name__, e), "tb": traceback.format_exc()[-1500:]})
